@@ -30,6 +30,8 @@ func runPair(r *rand.Rand, grace time.Duration) ([]OracleHit, map[string]interfa
 	n := 2 + r.Intn(4)
 	c := &pairCtl{running: map[string]chan struct{}{}, perTask: map[string]int{}}
 	tasks := make([]*dag.Task, n)
+	fromMap := make([]bool, n)
+	tm := dag.NewTaskMap()
 	for i := 0; i < n; i++ {
 		id := string(rune('a' + i))
 		fn := func(ctx context.Context, opt *getoptions.GetOpt, args []string) error {
@@ -55,12 +57,23 @@ func runPair(r *rand.Rand, grace time.Duration) ([]OracleHit, map[string]interfa
 			c.mu.Unlock()
 			return nil
 		}
-		if i%2 == 1 {
+		switch i % 3 {
+		case 1:
 			// written as a struct literal: ID and Fn are exported and the zero lock works
 			tasks[i] = &dag.Task{ID: dag.ID(id), Fn: fn}
-		} else {
+		case 2:
+			// kept in a TaskMap; every graph asks the map for it again
+			tasks[i] = tm.Add(id, fn)
+			fromMap[i] = true
+		default:
 			tasks[i] = dag.NewTask(id, fn)
 		}
+	}
+	taskFor := func(i int) *dag.Task {
+		if fromMap[i] {
+			return tm.Get(string(tasks[i].ID))
+		}
+		return tasks[i]
 	}
 	caps := [2]int{1 + r.Intn(3), 1 + r.Intn(3)}
 	graphs := [2]*dag.Graph{}
@@ -72,10 +85,10 @@ func runPair(r *rand.Rand, grace time.Duration) ([]OracleHit, map[string]interfa
 		order := r.Perm(n)
 		edges := []string{}
 		for pi, i := range order {
-			g.AddTask(tasks[i])
+			g.AddTask(taskFor(i))
 			for _, j := range order[:pi] {
 				if r.Intn(3) == 0 {
-					g.TaskDependsOn(tasks[i], tasks[j])
+					g.TaskDependsOn(taskFor(i), taskFor(j))
 					edges = append(edges, fmt.Sprintf("%s->%s", tasks[i].ID, tasks[j].ID))
 				}
 			}
